@@ -234,6 +234,20 @@ def prove(prop_id, extra_targets=()):
     r.cone = cone_files(prop_file)
     files = [os.path.join(COQ, f) for f in r.cone]
     r.problems += grep_gate(files)
+    # an extraction error is a broken obligation for every property whose cone (or tie) mentions the constant; Consts.v then
+    # carries the last known value so that the model still evaluates and the search for a failing input can run
+    errs = values.get("_errors", {})
+    if errs:
+        import consts as _consts
+        texts = ""
+        for f in files + [os.path.join(COQ, t.replace(".vo", ".v")) for t in extra_targets]:
+            try:
+                texts += open(f).read()
+            except OSError:
+                pass
+        for name, msg in sorted(errs.items()):
+            if any(re.search(r"\b%s\b" % re.escape(i), texts) for i in _consts.idents_of(name)):
+                r.problems.append("translator: %s can no longer be extracted from the source (%s)" % (name, msg))
     names_all = []
     for f in files:
         names_all += theorems_in(f)
